@@ -55,6 +55,7 @@ type asEp struct {
 	// a Del, expiry, foreign write, holder death or loader failure happened while a loader ran: the
 	// property's hypothesis (holder alive, lock in place) no longer holds until the loaders are done
 	contested bool
+	dead      bool
 }
 
 const asKey = "ck"
@@ -155,9 +156,13 @@ func (e *asEp) judge(c *Ctx, line string) {
 }
 
 func (e *asEp) op(c *Ctx, line string) {
+	if e.dead {
+		return // the real code hung earlier in this run: nothing after that is meaningful
+	}
 	w := strings.Fields(line)
 	emit := func() {
 		if !settle() {
+			e.dead = true
 			c.Emit(line, "not-quiescent", true)
 			return
 		}
